@@ -114,6 +114,8 @@ def judge(case, res, baseline_sha, ld_fails):
         key = "fork+child-exit0:no-done-byte"
     else:
         key = f"exit0:{mode}:{fault[1]}:{res.get('stage')}"
+    if case.get("penv"):
+        key += ":" + case["penv"]
     return "violation", (key, f"{cfg} {label}: {bad} (stderr: {res['stderr'][-120:]!r})",
                          observed, "non-zero exit status, or exit status 0 with the complete output")
 
@@ -195,6 +197,23 @@ def main():
                     if fault == "segv" and cal["segv_external"]:
                         c["segv_external"] = True
                     (firsts if first else rest).append(c)
+        # Inherited process environment x (natural errors, success, signal/panic faults at the
+        # first points of the child) in fork mode.
+        for cfg in configs:
+            if not cfg["fork"] or cfg["threads"] != 4:
+                continue
+            for penv in ("sigchld-ignored", "stdio-closed"):
+                natural.append(dict(cfg, penv=penv))
+                for scen in fe.SCENARIOS:
+                    S = fe.SCENARIOS[scen]
+                    natural.append(dict(cfg, scenario=scen, penv=penv,
+                                        prior=S.get("fixed_prior", "absent")))
+                pts = [pt for pt in info[fe.cfg_key(cfg)]["points"] if fe.is_enter_first(pt)]
+                for point in pts[::max(1, len(pts) // 6)][:6] + ["child:after-fork#1"]:
+                    for fault in ("panic", "kill9", "abort"):
+                        if fault in cal["unusable"]:
+                            continue
+                        firsts.append(dict(cfg, fault=(point, fault), penv=penv))
         st_cases, st_table = [], {}
         if chk.thorough:
             st_cfgs = [c for c in configs if c["threads"] == 4]
